@@ -117,13 +117,12 @@ func c07CheckStream(c *hx.Ctx, s []byte, want []refesl.List, label string) {
 		// the decoded value must not depend on the caller's buffer: decode through a
 		// *bytes.Buffer (the path GetVar uses), reuse the buffer, then look at the value
 		if err == nil && len(s) > 0 {
-			buf := bytes.NewBuffer(append([]byte{}, s...))
+			store := append([]byte{}, s...)
+			buf := bytes.NewBuffer(store)
 			var db2 signature.SignatureDatabase
 			if e2 := db2.Unmarshal(buf); e2 == nil {
-				backing := buf.Bytes()[:0]
-				backing = backing[:cap(backing)]
-				for i := range backing {
-					backing[i] ^= 0xff
+				for i := range store {
+					store[i] ^= 0xff
 				}
 				buf.Reset()
 				buf.Write(bytes.Repeat([]byte{0xee}, len(s)))
